@@ -148,8 +148,13 @@ pub mod rec {
 
     /// Called first thing by every echo handler, with its own literal identity.
     pub fn handler(prog: &str, part: &str, name: &str, kind: &str, args: Vec<(&str, Value)>, ctx: Value) {
+        handler_on(0, prog, part, name, kind, args, ctx)
+    }
+
+    /// A handler reports that it runs: `tag` identifies the contract value it runs on (`self.tag`).
+    pub fn handler_on(tag: u32, prog: &str, part: &str, name: &str, kind: &str, args: Vec<(&str, Value)>, ctx: Value) {
         let args: Vec<Value> = args.into_iter().map(|(n, j)| json!({"n": n, "json": j})).collect();
-        rt::emit(json!({"ev":"Handler","prog":prog,"part":part,"name":name,"kind":kind,"args":args,"ctx":ctx}));
+        rt::emit(json!({"ev":"Handler","prog":prog,"part":part,"name":name,"kind":kind,"args":args,"ctx":ctx,"tag":tag}));
     }
 
     /// The handler leaves its mark in the storage it was given (and counts the handlers that ran on it).
@@ -346,7 +351,7 @@ pub(crate) fn mark(deps: &Deps) -> String {
 }
 
 fn tokens_of(text: &str) -> std::collections::BTreeSet<String> {
-    text.split(|c: char| !(c.is_ascii_alphanumeric() || c == '_')).filter(|t| !t.is_empty()).map(|t| t.to_string()).collect()
+    text.split(|c: char| !(c.is_alphanumeric() || c == '_')).filter(|t| !t.is_empty()).map(|t| t.to_string()).collect()
 }
 
 const ENUM_KINDS: [&str; 3] = ["exec", "query", "sudo"];
